@@ -8,6 +8,8 @@ from .. import estimators as E
 from .. import gens
 from ..harness import Sub, Violation
 
+QUICK_SCALE = 4  # quick budgets below are multiplied by this (kept at about half a minute on 8 processes)
+
 RULE = ("fitted inductive estimators (all gradient models but the nonparametric ones, and Kauri), new query arrays built "
         "from fresh draws and training rows; index sets = subsets, permutations, repeated rows, single rows. "
         "predict_proba(X[idx]) must equal predict_proba(X)[idx] (1e-10), labels whenever the top-two margin exceeds 1e-8, "
